@@ -104,7 +104,9 @@ CLAIMED = {
             "fallible runs after the commit point, _rollback deletes only files and markers the transaction wrote and never raises, "
             "_finish_committed removes only markers and never raises, and the object invariant 'a later rollback()/__exit__ can "
             "delete written files only if the pointer was certainly not flipped' holds at EVERY exit of commit(). MetadataManager.commit "
-            "refuses (ACCEPT) only for a stale base, a lost lock, a lost pointer race, a foreign table uuid or an injected fault.",
+            "refuses (ACCEPT) only for a stale base, a lost lock, a lost pointer race, a foreign table uuid or an injected fault; the "
+            "retry loop's invariant includes the armed commit-point guard; S3StorageBackend.write_file_cas issues exactly one conditional "
+            "PUT, never retried (CAS-MAP, shared with C20).",
             "Trusted: T-store fault model; MetadataManager.commit / _commit_file_ops applied at the contract 'returns => flipped "
             "once, ConcurrentModificationException/other Exception => not flipped, AmbiguousCommitError => unknown' (proved for "
             "MetadataManager.commit in C01/C08). Interrupts are modelled at statement boundaries of commit() itself, not inside "
